@@ -28,3 +28,22 @@ ENG* g_this; BLOCK* g_blk; uint64_t g_label, g_state, g_L; void* cell_rm; _Bool 
   __CPROVER_requires(v_this == g_this && v_block == g_blk && v_label == g_label && v_state == g_state && g_label < g_L && g_app_calls == 0 && !g_queued) \
   __CPROVER_assigns(g_app_calls, g_queued) \
   __CPROVER_ensures(g_app_calls == 1 && (!g_queued == !g_app_ret))
+/* unsafeRelease(deleter) -- a holder gives up its Remove list: the exclusively owned prefix of the chain (refCount_ == 1) is handed to the deleter,
+   node by node, each once; the first SHARED node only loses one reference and is neither handed to the deleter nor changed otherwise (the other
+   holder keeps the rest of the chain).  Witness node nX of the prefix (present iff has_x), first shared node nS (present iff has_s). */
+SL *nH, *nG0, *nX, *nG1, *nS; _Bool has_x, has_s; uint64_t del_h, del_x, g_hrc0, g_src0; void* g_del;
+#define UE1 (has_s ? nS : (SL*)0)
+#define UE0 (has_x ? nX : UE1)
+#define USHAPE (nG0->f2 == 1 && nG1->f2 == 1 && nX->f2 == 1 && nS->f2 > 1 \
+   && (nH->f0 == nG0 || nH->f0 == UE0) && (nG0->f0 == nG0 || nG0->f0 == UE0) && (nX->f0 == nG1 || nX->f0 == UE1) && (nG1->f0 == nG1 || nG1->f0 == UE1))
+#define CONTRACT_UREL \
+  __CPROVER_requires(v_this == nH && v_deleter == g_del && USHAPE && nH->f2 == g_hrc0 && g_hrc0 >= 1 && nS->f2 == g_src0 && del_h == 0 && del_x == 0) \
+  __CPROVER_assigns(del_h, del_x, nH->f2, nS->f2, nG0->f0, nG1->f0) \
+  __CPROVER_ensures(g_hrc0 > 1 ==> (del_h == 0 && del_x == 0 && nH->f2 == g_hrc0 - 1 && nS->f2 == g_src0)) \
+  __CPROVER_ensures(g_hrc0 == 1 ==> (del_h == 1 && (has_x ==> del_x == 1) && (!has_x ==> del_x == 0) && nS->f2 == (has_s ? g_src0 - 1 : g_src0) && nH->f2 == 1))
+#define LOOPASG_UREL__L_CHAIN , del_h, del_x, nG0->f0, nG1->f0
+#define LOOP_UREL__L_CHAIN \
+  __CPROVER_loop_invariant(USHAPE && nH->f2 == g_hrc0 && nS->f2 == g_src0 && del_h <= 1 && del_x <= 1 && (del_x == 1 ==> has_x)) \
+  __CPROVER_loop_invariant(v_elem_slot == nH || (g_hrc0 == 1 && (v_elem_slot == nG0 || v_elem_slot == UE0 || (has_x && (v_elem_slot == nG1 || v_elem_slot == UE1))))) \
+  __CPROVER_loop_invariant((v_elem_slot == nH) == (del_h == 0)) \
+  __CPROVER_loop_invariant((has_x && v_elem_slot != nH && v_elem_slot != nG0 && v_elem_slot != nX) == (del_x == 1))
